@@ -37,6 +37,7 @@ func main() {
 	worker := flag.Bool("worker", false, "internal: analyse one configuration and print JSON")
 	cfgID := flag.String("config", "K1", "internal/debug: build configuration")
 	dump := flag.String("dump", "", "debug: dump terms and facts of functions whose name contains this string")
+	bounds := flag.String("bounds", "", "debug: list the BOUND obligations of functions whose name contains this string")
 	noEvidence := flag.Bool("no-evidence", false, "do not write evidence files (self test on scratch copies)")
 	flag.Parse()
 
@@ -48,6 +49,28 @@ func main() {
 	}
 	if *dump != "" {
 		debugDump(*repo, *cfgID, *dump)
+		return
+	}
+	if *bounds != "" {
+		cfg, _ := an.ConfigByID(*cfgID)
+		p, err := an.Load(*repo, cfg)
+		if err != nil {
+			fmt.Fprintln(os.Stderr, err)
+			os.Exit(2)
+		}
+		for _, fn := range p.SrcFuncs() {
+			if !strings.Contains(fn.String(), *bounds) {
+				continue
+			}
+			fmt.Print(p.Info(fn).DebugPhis())
+			for _, o := range p.BoundObligations(fn) {
+				st := "ok  "
+				if !o.OK {
+					st = "FAIL"
+				}
+				fmt.Printf("%s %s %s %s %s -- %s\n", st, o.Kind, p.Pos(o.Instr.Pos()), an.FuncName(fn), o.Expr, o.Why)
+			}
+		}
 		return
 	}
 	if *worker {
